@@ -514,8 +514,8 @@ int main(int argc, char **argv) {
 	const char *mode = vh_arg(0, "drain");
 	if (!strcmp(mode, "drain")) { BS.viol_key = "merge-output"; for_each_family(vh_thorough ? 4 : 3, "rumxdy", do_drain); }
 	else if (!strcmp(mode, "fail")) { BS.viol_key = "merge-failure"; for_each_family(vh_thorough ? 4 : 3, "rxy", do_fail); }
-	else if (!strcmp(mode, "bfs")) { BS.viol_key = "seek-contract"; for_each_family(vh_thorough ? 3 : 2, vh_thorough ? "rumxd" : "rmud", do_bfs); }
-	else if (!strcmp(mode, "tree")) { BS.viol_key = "seek-contract"; g_treedepth = vh_thorough ? 4 : 3; for_each_family(2, vh_thorough ? "xu" : "x", do_bfs); }
+	else if (!strcmp(mode, "bfs")) { BS.viol_key = "seek-contract"; for_each_family(vh_thorough ? 3 : 2, vh_thorough ? "rxd" : "rmud", do_bfs); }
+	else if (!strcmp(mode, "tree")) { BS.viol_key = "seek-contract"; g_treedepth = vh_thorough ? 4 : 3; for_each_family(2, "x", do_bfs); }
 	else if (!strcmp(mode, "srcwrite")) { BS.viol_key = "source-write"; for_each_family(3, "rmx", do_srcwrite); }
 	else if (!strcmp(mode, "tool")) { BS.viol_key = "mtbl_merge"; for_each_family(vh_thorough ? 3 : 2, "rm", do_tool); }
 	else if (!strcmp(mode, "lookup")) { BS.viol_key = "lookup"; for_each_family(vh_thorough ? 3 : 2, "rmx", do_lookup); }
